@@ -151,3 +151,35 @@ Print Assumptions c18_store_counter_value.
 Theorem c18_store_unfixed_learn_refuted : ~ store_value_statement false.
 Proof. exact store_unfixed_learn_refuted. Qed.
 Print Assumptions c18_store_unfixed_learn_refuted.
+
+(** pn_counter.py as regenerated: increment / decrement / merge / value are the
+    model's PN-counter functions on the abstraction (the two inner G-counters read
+    through [gc_abs]); ValueError for n < 1 is [None]. *)
+Theorem c18_code_pncounter_refines : forall c n a b,
+  match PNCounter_increment c n with
+  | None => n < 1
+  | Some (c', _) =>
+      1 <= n /\ PNCounter__n c' = PNCounter__n c /\ PNCounter__node_id c' = PNCounter__node_id c
+      /\ GCounter__node_id (PNCounter__p c') = GCounter__node_id (PNCounter__p c)
+      /\ forall k, fst (pn_abs c') k = fst (pn_inc (GCounter__node_id (PNCounter__p c)) n (pn_abs c)) k
+  end
+  /\ match PNCounter_decrement c n with
+     | None => n < 1
+     | Some (c', _) =>
+         1 <= n /\ PNCounter__p c' = PNCounter__p c /\ PNCounter__node_id c' = PNCounter__node_id c
+         /\ GCounter__node_id (PNCounter__n c') = GCounter__node_id (PNCounter__n c)
+         /\ forall k, snd (pn_abs c') k = snd (pn_dec (GCounter__node_id (PNCounter__n c)) n (pn_abs c)) k
+     end
+  /\ (dwf (GCounter__counts (PNCounter__p b)) = true -> dwf (GCounter__counts (PNCounter__n b)) = true ->
+      dnonneg (GCounter__counts (PNCounter__p a)) -> dnonneg (GCounter__counts (PNCounter__n a)) ->
+      forall k, fst (pn_abs (fst (PNCounter_merge a b))) k = fst (pn_merge (pn_abs a) (pn_abs b)) k
+             /\ snd (pn_abs (fst (PNCounter_merge a b))) k = snd (pn_merge (pn_abs a) (pn_abs b)) k)
+  /\ (dwf (GCounter__counts (PNCounter__p c)) = true -> dwf (GCounter__counts (PNCounter__n c)) = true ->
+      PNCounter_value c = gc_value (map fst (GCounter__counts (PNCounter__p c))) (fst (pn_abs c))
+                        - gc_value (map fst (GCounter__counts (PNCounter__n c))) (snd (pn_abs c))).
+Proof.
+  intros c n a b.
+  exact (conj (tie_pn_increment c n) (conj (tie_pn_decrement c n)
+        (conj (tie_pn_merge a b) (fun Wp Wn => proj1 (tie_pn_value c Wp Wn))))).
+Qed.
+Print Assumptions c18_code_pncounter_refines.
